@@ -44,7 +44,7 @@ def run(ck):
     ck.rule("C07.R4", "filter ids are distinct single bits assigned in on_subscribe", floor=4)
     ck.rule("C07.R5", "bitmap typestate: every protocol run ends all-clear and delivers iff accepted", floor=100)
     ck.rule("C07.R5s", "effect summaries extracted from MIR match a recognised shape", floor=9)
-    ck.rule("C07.R7", "Vec<S> claims to be per-layer-filtered only if every element is", floor=1)
+    ck.rule("C07.R7", "Vec<S> / a Layered tree claim to be per-layer-filtered only if every part is", floor=2)
     ck.rule("C07.R6", "per-layer filter combinators (And/Or/Not/Option) publish sound interests and level hints (as C08.R1/R2)", floor=10)
     r1(ck, F)
     r2(ck, F)
@@ -57,6 +57,7 @@ def run(ck):
     from rules import C08
     C08.r1(ck, F, rid="C07.R6")
     C08.r2(ck, F, rid="C07.R6")
+    C08.r3(ck, F, rid="C07.R6")
     r7(ck, F)
 
 
@@ -647,13 +648,13 @@ def r5(ck, R):
                     ck.ok("C07.R5", inst, detail=dict(final=sim.bits, delivered=sorted(sim.delivered)))
 
 
-def r7(ck, F):
+def r7(ck, F, rid="C07.R7"):
     """`Layered::pick_interest` replaces the interest a layer computed by the summed per-filter interest when the layer says
     (through the downcast marker) that it is per-layer-filtered. A Vec of layers may say so only if ALL its elements are
     filtered: with one unfiltered element the summed interest says nothing about that element, which then loses events
     its siblings' filters reject (or a global filter inside the Vec can no longer veto)."""
     b = F.impl_method("tracing_subscriber::subscribe::Subscribe", "alloc::vec::Vec<S>", "downcast_raw")
-    if not ck.anchor("C07.R7", "Vec<S>::downcast_raw", b):
+    if not ck.anchor(rid, "Vec<S>::downcast_raw", b):
         return
     key = "Vec<S>::downcast_raw answers the psf marker with None as soon as one element is unfiltered"
     rows = []
@@ -696,6 +697,18 @@ def r7(ck, F):
         if unfiltered_exists and not ret.startswith("Option::None"):
             ok, why = False, "with an unfiltered element the marker is answered %s instead of None" % ret[:60]
     if ok:
-        ck.ok("C07.R7", key, fn=b.path, detail=[str(r) for r in rows])
+        ck.ok(rid, key, fn=b.path, detail=[str(r) for r in rows])
     else:
-        ck.bad("C07.R7", key, where(b.raw["sp"]), why, fn=b.path)
+        ck.bad(rid, key, where(b.raw["sp"]), why, fn=b.path)
+    # the same for a Layered tree (`a.and_then(b)`): per-layer-filtered only if BOTH halves are, asked now (not read from
+    # the flags cached at construction, one of which is also set for "the inner value is the Registry")
+    lb = F.impl_method("tracing_subscriber::subscribe::Subscribe", "tracing_subscriber::subscribe::layered::Layered<A, B, C>", "downcast_raw")
+    if ck.anchor(rid, "Subscribe for Layered::downcast_raw", lb):
+        key2 = "Layered tree answers the psf marker with and(outer, inner) of the halves' own answers"
+        got = [show(p.ret) for p in PathEval(lb).run() if p.end == "return"
+               and any(show(c[0]).startswith("is_psf_downcast_marker(") and c[1] != 0 for c in p.conds)]
+        good = {"and(downcast_raw(arg1.subscriber, arg2), downcast_raw(arg1.inner, arg2))", "and(downcast_raw(arg1.inner, arg2), downcast_raw(arg1.subscriber, arg2))"}
+        if got and all(g in good for g in got):
+            ck.ok(rid, key2, fn=lb.path, detail=got)
+        else:
+            ck.bad(rid, key2, where(lb.raw["sp"]), "the marker is answered %s" % (got or "on no path"), fn=lb.path)
